@@ -11,6 +11,7 @@ open VM
 inductive SeqItem
   | val (v : Int)
   | err
+  | none        -- `Ok(None)` here; the access goes on with the following items if it is polled again
   deriving Repr, Inhabited
 
 namespace Serde
@@ -21,6 +22,7 @@ def nextElement (X : Ctx) (sc : List SeqItem) : VM (Except Unit (Option Elem) ×
   match sc with
   | [] => pure (.ok none, [])
   | .err :: rest => pure (.error (), rest)
+  | .none :: rest => pure (.ok none, rest)
   | .val v :: rest => do
     let e ← mkElem v
     pure (.ok (some e), rest)
